@@ -188,6 +188,17 @@ func (s *SessSim) SetLink(from, to string, fs *FateScript, dir int) {
 	s.Links[from+">"+to] = &Link{Script: fs, Dir: dir}
 }
 
+// ScriptsDone reports whether every installed link has used up the scripted
+// part of its fate script (from then on the link is fair).
+func (s *SessSim) ScriptsDone() bool {
+	for _, l := range s.Links {
+		if l.idx < l.Script.Len(l.Dir) {
+			return false
+		}
+	}
+	return true
+}
+
 // Go runs f on a new goroutine inside the bubble and returns its handle.
 func (s *SessSim) Go(name string, f func() (int, error, any)) *Call {
 	c := &Call{Name: name, Issued: s.Now()}
